@@ -7,7 +7,7 @@
 
    stream `mini`: line = `<fuel> <n> q₁ … qₙ main ||| <wire input>` with queries in prefix form
         id | c <wire value> | pipe a b | comma a b | iter | empty | arr q | param | call <f> a
-        | error | try b | trycatch b h | index <wire key> | ite c a b | alt l r
+        | error | try b | trycatch b h | index <wire key> | ite c a b | alt l r | var <x> | bind <x> src body
      answer: `<instructions of compileProg, scope ids and registers renumbered by first
      appearance> ||| <outputs of the mini VM> END` (or `ERR msg s<hex>`), `?…` when not covered. -/
 import Gojq.Model.Stack
@@ -101,6 +101,8 @@ partial def pQ : List String → Option (Q × List String)
   | "index" :: r => do let (v, r) ← parseVal r; pure (.index v, r)
   | "ite" :: r => do let (c, r) ← pQ r; let (a, r) ← pQ r; let (b, r) ← pQ r; pure (.ite c a b, r)
   | "alt" :: r => do let (a, r) ← pQ r; let (b, r) ← pQ r; pure (.alt a b, r)
+  | "var" :: x :: r => do let x ← x.toNat?; pure (.var x, r)
+  | "bind" :: x :: r => do let x ← x.toNat?; let (a, r) ← pQ r; let (b, r) ← pQ r; pure (.bind x a b, r)
   | _ => none
 
 partial def pQs : Nat → List String → Option (List Q × List String)
@@ -183,6 +185,7 @@ def showOutcome : Outcome → String
     if outs.any mentionsUnmodelled || mentionsUnmodelled v then "?error message not modelled"
     else showOuts outs ++ "ERR value " ++ toWire v
   | .finished _ (some (.plain .noParam)) => "?parameter used outside a function"
+  | .finished _ (some (.plain (.noVar _))) => "?unbound variable"
   | .finished outs (some (.tryEnd _)) => showOuts outs ++ "STUCK tryEndError escaped"
   | .outOfFuel _ => "?fuel"
   | .stuck outs => showOuts outs ++ "STUCK"
